@@ -87,7 +87,7 @@ def sample_history(trace, maxev=6):
     return out
 
 
-def report(rep, pid, res, sigs, what):
+def report(rep, pid, res, sigs, what, extra_fields=None):
     for r in res:
         for t in r["known"]:
             m = _KNOWN.match(t)
@@ -101,8 +101,8 @@ def report(rep, pid, res, sigs, what):
         ev = hist[-1]
         mm = [m for m in r["mismatches"] if _LINE.match(m) and int(_LINE.match(m).group(1)) == line] or r["mismatches"][-2:]
         head = hist[0]
-        rep.violation({"property": pid, "ops": ops_of(hist), "failing_event": {k: ev[k] for k in ev if k not in ("opj",)},
-                       "mismatch": [m[:1500] for m in mm[:4]]},
+        rep.violation(dict({"property": pid, "ops": ops_of(hist), "failing_event": {k: ev[k] for k in ev if k not in ("opj",)},
+                            "mismatch": [m[:1500] for m in mm[:4]]}, **(extra_fields or {})),
                       f"{what}: {head['region']}/{head['front']}{'/classC' if head['classc'] else ''} event {len(hist)} "
                       f"({ev['ev']} {ev.get('kind','')}): {(mm[0] if mm else 'trace rejected')[:260]}")
 
@@ -213,10 +213,41 @@ def certification(pid):
                 by_front.setdefault(sigs[sig]["line"], []).append(sig.rsplit(":", 1)[-1])
         for line, cids in by_front.items():
             rep.known_finding(f"[S33] {line[:330]} (commands: {', '.join(cids)})")
+        # behaviour conformance: the histories that do not end in a panic are held to Mac.tla / MacTrace.tla, which
+        # model the handler (command walk, ADR bit, frame-type override, LinkCheckReq queued, answers transmitted
+        # at once on FPort 224 with legal channel / data rate / power, counters, what reaches the application)
+        bd = os.path.join(d, "behaviour")
+        os.makedirs(bd, exist_ok=True)
+        kept = 0
+        for t in traces:
+            out, histl = [], []
+
+            def flush():
+                nonlocal kept
+                if histl:
+                    last = json.loads(histl[-1])
+                    if (last.get("resp") or {}).get("k") not in ("Panic", "Hang"):
+                        out.extend(histl)
+                        kept += 1
+            with open(t) as f:
+                for line in f:
+                    if json.loads(line)["ev"] == "reset":
+                        flush()
+                        histl = []
+                    histl.append(line)
+            flush()
+            with open(os.path.join(bd, os.path.basename(t)), "w") as f:
+                f.write("".join(out))
+        btraces = sorted(glob.glob(os.path.join(bd, "mac.*.ndjson")))
+        bres, bsigs = validate(pid, btraces, bd)
+        report(rep, pid, bres, bsigs, "certification build: behaviour differs from Mac.tla's model of the handler",
+               extra_fields={"cert": True})
         n, hist, kinds, distinct = summarise(traces)
-        return {"_states": sum(r["distinct"] for r in res), "_transitions": sum(r["generated"] for r in res),
+        return {"_states": sum(r["distinct"] for r in res) + sum(r["distinct"] for r in bres),
+                "_transitions": sum(r["generated"] for r in res) + sum(r["generated"] for r in bres),
                 "_evaluations": n, "_distinct": distinct,
-                "certification_build": {"histories": hist, "events": n, "module": "CertTrace.tla",
+                "certification_build": {"histories": hist, "events": n, "module": "CertTrace.tla (all histories) + MacTrace.tla (behaviour of the non-panicking ones)",
+                                        "histories_held_to_the_behaviour_model": kept,
                                         "known_signatures_matched": seen,
                                         "rule": "device built with cargo feature `certification`: every TS009 command (well-formed, malformed, unknown, "
                                                 "several per frame, EchoPayloadReq up to 242 octets) as the FPort-224 payload of an authentic downlink in "
@@ -239,6 +270,10 @@ def replay(pid, path):
     if r.get("cert"):
         res, sigs = validate_cert(rp, traces, wd)
         bad = [m for x in res for m in x["mismatches"]]
+        last = core.read_events(traces[0])[-1]
+        if (last.get("resp") or {}).get("k") not in ("Panic", "Hang"):
+            bres, _ = validate(rp, traces, wd)
+            bad += [m for x in bres if not x["accepted"] for m in (x["mismatches"] or ["trace rejected"])]
         for m in bad[:3]:
             print("REPLAY mismatch:", m[:400])
         print("REPLAY", "violation reproduced" if bad else "no violation")
